@@ -173,13 +173,20 @@ def evaluate(ctx, results, tag):
   for i, r in enumerate(results):
     if "exc" in r:
       continue
-    for st in r["steps"]:
-      for li, lf in enumerate(st["leaves"]):
-        terms.append(leaf_term(r["case"], st, lf))
-        idx.append((i, st["t"], li, "leaf", None))
-        for name, t, j in root_terms(r["case"], st, lf):
-          terms.append(t)
-          idx.append((i, st["t"], li, name, j))
+    n0 = len(terms)
+    try:
+      for st in r["steps"]:
+        for li, lf in enumerate(st["leaves"]):
+          terms.append(leaf_term(r["case"], st, lf))
+          idx.append((i, st["t"], li, "leaf", None))
+          for name, t, j in root_terms(r["case"], st, lf):
+            terms.append(t)
+            idx.append((i, st["t"], li, name, j))
+    except ValueError as e:
+      # a NaN / Inf in the update or the state has no dyadic form; the gradients are finite, so
+      # this is a violation on the implementation with this case as the failing input
+      del terms[n0:], idx[n0:]
+      r["exc"] = "non-finite value in the update or optimizer state for finite gradients (%s)" % e
   ctx.log("%d Coq evaluations" % len(terms))
   vals = ctx.coq_eval(tag, HEADER, terms, per_shard=30, timeout=2400)
   out = []
